@@ -48,7 +48,9 @@ BAD32 = [[0xD800],[0xDFFF],[0x110000],[0xFFFFFFFF],[0x80000000],[0x10FFFF+1],[0x
 def alias(ch, k=None):
     """a code point above U+00FF whose LOW BYTE equals the ASCII character (is_8bit guard class of slips)"""
     o = ord(ch)
-    return chr(o + (k if k is not None else 0x100))
+    if o >= 0x100: return ch
+    v = o + (k if k is not None else 0x100)
+    return chr(v) if v < 0x110000 and not (0xD800 <= v <= 0xDFFF) else ch
 ALIAS_OFFSETS = [0x100, 0x200, 0xFF00, 0x4E00, 0x10000, 0x1F400]
 
 def units(text, enc):
@@ -265,6 +267,17 @@ class Gen:
         for _ in range(self.r.randrange(1, 10)):
             self.emit(self.sp_op(0, 'psp'))
         self.emit('psp 0 sort')
+        if self.r.randrange(6) == 0:
+            # the cached sorted flag after sort()/clear(): appends in ascending BYTE order that are descending in
+            # UTF-16 code unit order (U+E000..U+FFFF before a supplementary code point), then sort again
+            self.stat('psp:flag-pattern')
+            if self.r.randrange(2): self.emit('psp 0 clear')
+            hi = self.pick(['\ue000', '\uffff', '\uf900', 'a\ue000', '\ufb00'])
+            sup = self.pick(['\U00010000', '\U0001f600', '\U0010ffff', 'a\U00010000']) if not hi.startswith('a') else 'a\U00010000'
+            self.emit('psp 0 %s %s %s' % (self.pick(['append', 'set']), self.arg(hi), self.arg('1')))
+            self.emit('psp 0 %s %s %s' % (self.pick(['append', 'set']), self.arg(sup), self.arg('2')))
+            if self.r.randrange(2): self.emit('psp 1 copy 0'); self.emit('psp 1 sort')
+            self.emit('psp 0 sort')
         if self.r.randrange(3) == 0:
             self.emit('psp 1 copy 0'); self.emit(self.sp_op(1, 'psp')); self.emit('psp 0 size')
 
